@@ -69,7 +69,7 @@ class Pool:
 
     def join(self, timeout=None):
         s, t, p = facade.ctx()
-        s.block(lambda: not self._live(), timeout, False, False)
+        s.block(lambda: not self._live(), timeout, True, False)      # handlers of the main greenlet run while it waits
         return not self._live()
 
     def kill(self):
